@@ -6,5 +6,18 @@ META = {
   "note": "Trusted: rustc name/type resolution and MIR; the panic-source catalogue; allow-list reasons in tables/panic_sites.json (read by hand); prost decode depth limit 100. Not decided: hangs, dependency-internal panics.",
   "design_ref": "DESIGN.md §3 C09",
  },
+
+ "C06": {
+  "technique": "static analysis: HIR match-table expansion of the operator dispatch (first-match cell table over all enum variants) compared with a specification oracle; panic-source reachability (MIR) from Expression::evaluate; dominance rule for the shadowing test; structural rules for checked arithmetic, laziness, stack discipline and idempotent interning",
+  "text": "Decides, for all operation sequences and operands at once, the structural part of C06: which (operator, left type, right type) cells are accepted (must equal the specification table), that everything else reaches Err(InvalidType), that integer +,-,*,/ go through checked_* and no compiler arithmetic check remains, that short-circuit arms do not evaluate the closure, that closures are evaluated only after the shadowing test, that every stack pop has an InvalidStack default, and that no panic source is reachable from evaluation. It does not decide the value each operator returns.",
+  "note": "Trusted: oracle/operator_typing.json (from the specification), rustc pattern/type resolution, panic catalogue. Not decided: returned values, regex cost, user extern functions.",
+  "design_ref": "DESIGN.md §3 C06",
+ },
+ "C05": {
+  "technique": "static analysis: HIR match-table rule for the fact matcher over all Term variant pairs; MIR def-use rule for the unification result; structural rules on the fixpoint loop (exit condition, unconditional insertion, fact counting, merge) and provenance wiring",
+  "text": "Decides structural necessary conditions of C05 that hold for all programs: the predicate/fact matcher compares every term type by value (a missing or constant arm for one type is a violation), unification is bind-or-compare and its result gates the join, an unbound head variable yields nothing, the fixpoint loop can only succeed when a round added no (origin, fact) pair (FactSet::len counts pairs, merge/insert keep every pair), derived facts carry matched origin + rule block. It does not decide equality with the least fixpoint.",
+  "note": "Trusted: rustc resolution, std collections. Not decided: semantic completeness of the join iterator, order independence (see C11).",
+  "design_ref": "DESIGN.md §3 C05",
+ },
 }
 NOT_APPLICABLE = {}
